@@ -361,6 +361,8 @@ class Scheduler:
             self.task_states[tid] = LocalStatus.FAILED
         except Exception:
             logger.exception("task %s could not be run", name)
+            if proc is not None and proc.returncode is None:
+                await self._gentle_kill(proc)
             self.task_states[tid] = LocalStatus.FAILED
         else:
             self.task_states[tid] = LocalStatus.COMPLETED
